@@ -84,10 +84,25 @@ class C04(rowgen.RowGenProp):
             p = rng.uniform(N - 1.95, N - 1.05) if rng.random() < 0.5 else rng.uniform(0.1, N - 1.1)
             calls.append(call(t0 + 3 + I * scen.blow_index(N, 1.0, r, p), rng.choice([BOB, SINGLE])))
         end = t0 + 3 + I * scen.blow_index(N, 1.0, nrows, 0)
+        go2 = None
+        if rng.random() < 0.35:
+            # the touch is brought round and the method started again without a Look To (That's all, rounds, Go):
+            # a call still pending, made in the rounds in between, or cut short by That's all belongs to the past -
+            # the second start is judged, with the calls made after it
+            r1 = rng.randint(6, 10)
+            ta = t0 + 3 + I * scen.blow_index(N, 1.0, r1, rng.uniform(0.2, N - 1.2))
+            rg = r1 + rng.randint(4, 6)
+            go2 = t0 + 3 + I * scen.blow_index(N, 1.0, rg, rng.uniform(0.2, N - 1.2))
+            calls = [call(t0 + 3 + I * scen.blow_index(N, 1.0, rng.randint(3, rg - 1), rng.uniform(0.1, N - 1.1)),
+                          rng.choice([BOB, SINGLE])) for _ in range(rng.randint(1, 3))]
+            calls += [call(t0 + 3 + I * scen.blow_index(N, 1.0, rg + rng.randint(3, 9), rng.uniform(0.1, N - 1.1)),
+                           rng.choice([BOB, SINGLE])) for _ in range(rng.randint(0, 2))]
+            events += [call(ta, scen.THATS_ALL), call(go2, GO)]
+            end = t0 + 3 + I * scen.blow_index(N, 1.0, rg + 16, 0)
         sc = {"start": 1000.0, "end": end, "tower_size": N, "events": sorted(events + calls, key=lambda e: e[0]),
               "bot": scen.bot_cfg(spec, up_down_in=udi),
               "rhythm": scen.rhythm_cfg("regression", inertia=1.0, peal_speed=ps)}
-        return {"k": "world", "scenario": sc, "t0": t0}
+        return {"k": "world", "scenario": sc, "t0": t0, "go2": go2}
 
     def impl(self, req):
         if req["k"] == "world":
@@ -118,9 +133,19 @@ class C04(rowgen.RowGenProp):
         strikes = reply["strikes"]
         rows = scen.rows_from_strikes(reply, N)
         opening = list(range(1, N + 1))
-        m = 2 if (spec.get("start_index") or 0) % 2 == 0 else 3
+        hand_start = (spec.get("start_index") or 0) % 2 == 0
+        m = 2 if hand_start else 3
         if len(rows) <= m or any(r != opening for r in rows[:m]):
             return None
+        if req.get("go2") is not None:
+            k = sum(1 for (t, _, _) in strikes if scen.b2f(t) < req["go2"]) // N
+            if k >= len(rows) or rows[k] != opening:
+                return None          # (the second Go did not arrive during rounds: nothing to judge)
+            m = k + 1
+            while (m % 2 == 0) != hand_start:
+                m += 1
+            if m >= len(rows):
+                return None
         # method row j (= rows[m + j]) is generated when the last bell of the row before it strikes
         gen_t = [scen.b2f(strikes[(m + j) * N - 1][0]) for j in range(len(rows) - m)]
         made = sorted((ev[0], ev[2]["call"]) for ev in sc["events"] if ev[2].get("call") in (BOB, SINGLE))
